@@ -121,6 +121,18 @@ def run_case(a):
             extra = sorted(set(o) - set(base))
             if extra != ["dependency-graph.dot", "dependency-graph.txt"]:
                 viol.append(("C13 visualize-deps-file-set", "--visualize-deps adds %s instead of its two files" % extra, wit({"flag": "--visualize-deps"})))
+            # the two graph files are files of the run like any other: identical sources and settings, identical files
+            for k, hs in enumerate((seed * 31 + 5, seed * 31 + 6, None)):
+                o2, err = gen_out(cli, root, None, mode, hs, "viz%d" % k, viz=True)
+                stats["runs"] += 1
+                if o2 is None:
+                    continue
+                stats["graph_file_pairs_compared"] = stats.get("graph_file_pairs_compared", 0) + 2
+                for f in ("dependency-graph.dot", "dependency-graph.txt"):
+                    if o.get(f) != o2.get(f):
+                        viol.append(("C13 schedule-changes-content file=%s mode=%s" % (f, mode), "same sources and settings with --visualize-deps, hash seed %s vs %s: %s differs" % (hs0, hs, f),
+                                     wit({"flag": "--visualize-deps", "hash_seeds": [hs0, hs]})))
+                        break
         # (2a) the same directories spelled differently on the command line (relative, ./, trailing slash, dot segments, doubled slash)
         import os as _os
         for k, (sp_src, sp_out) in enumerate([("./src", "./out_sp0"), ("src/", "out_sp1/"), ("./src/../src", "./x/../out_sp2"), (_os.path.join(root, "src") + "/", root + "//out_sp3")]):
@@ -200,7 +212,7 @@ def run_case(a):
                 viol.append(("C13 transform=%s changes-%s file=%s" % (tf.__name__, dk, f),
                              "after %s (%s-preserving) %s differs in %s" % (tf.__name__, "everything" if kind == "noise" else "declaration-set", f, dk),
                              proj.witness_of(base_list, mode, extra={"transformed": [[p, t] for p, t in compound.render(f2)], "transform": tf.__name__})))
-        return {"viol": viol, "runs": stats["runs"], "bytes": len(stats["distinct_bytes"]), "orders": len(stats["distinct_orders"]),
+        return {"viol": viol, "runs": stats["runs"], "bytes": len(stats["distinct_bytes"]), "orders": len(stats["distinct_orders"]), "graph_pairs": stats.get("graph_file_pairs_compared", 0),
                 "files": len(files), "items": sum(len(v) for v in files.values())}
     finally:
         common.rmtree(root)
@@ -226,6 +238,7 @@ def run(tier):
         v.case((job[2], job[3]), nontrivial=r["files"] >= 2, sample={"seed": job[2], "mode": job[3], "files": r["files"], "items": r["items"],
                                                                     "process_runs": r["runs"], "distinct_outputs": r["bytes"], "distinct_declaration_orders": r["orders"]})
         v.count("process_runs", r["runs"])
+        v.count("graph_files_compared_across_hash_seeds", r.get("graph_pairs", 0))
         tot_bytes += r["bytes"]
         tot_orders += r["orders"]
         if r["orders"] > 1:
